@@ -3,8 +3,10 @@ CONSTANTS
   Callers <- MCCallers
   Images <- MCImages
   MaxReq = 2
+  KeyByRepo = FALSE
 INVARIANT Inv_C20_OnePullPerImage
 INVARIANT Inv_C20_ExactlyOneResponse
 INVARIANT Inv_C20_EntryHasPull
+INVARIANT Inv_C20_RightContent
 PROPERTY Live_C20_NoLostWakeup
 CHECK_DEADLOCK FALSE
